@@ -11,7 +11,7 @@ from typing import Any, Callable
 
 from harness import env
 
-UNSTABLE_MARGIN = 1e-9
+UNSTABLE_MARGIN = 5e-8   # relative to max(1,|x|,|y|): a threshold test decided within half an ATOL
 
 
 def jhash(obj: Any) -> str:
